@@ -90,7 +90,7 @@ def run(ctx):
                 hist.append(seq)
         if ctx.quick:
             hist = hist[:60] + rng.sample(hist, 200)
-        for _ in range(30 if ctx.quick else 300):
+        for _ in range(30 if ctx.quick else 4000):
             hist.append(tuple(rng.choice(POOL + [None])
                               for _ in range(rng.randint(5, 12))))
         for seq in hist:
@@ -159,7 +159,7 @@ def run(ctx):
                 cur["make"] = lambda path=path: FileResponse(path)
                 check("fileresponse", True, ("path", size), {"size": size})
         # ---- generator with declared length
-        for _ in range(20 if ctx.quick else 200):
+        for _ in range(20 if ctx.quick else 3000):
             chunks = [bytes(rng.randrange(256)
                             for _ in range(rng.choice([0, 1, 2, 7])))
                       for _ in range(rng.randint(0, 6))]
